@@ -358,3 +358,88 @@ pub fn c16_transparent(
     }
     out
 }
+
+/// Expected tree / action log (reference) against the observed ones. `expected` is the rendering of the
+/// reference tree, `actions` the reference action log.
+pub fn c05_tree(
+    prop: &'static str,
+    obs: &Obs,
+    expected: &str,
+    actions: &[String],
+    rule_names: &[&str],
+    token_names: &[&str],
+) -> Vec<Viol> {
+    let mut out = vec![];
+    let got = match tree::build(&obs.nodes) {
+        Ok(t) => {
+            let mut s = String::new();
+            t.render(rule_names, token_names, &|_| false, &mut s);
+            s
+        }
+        Err(e) => format!("<malformed: {e}>"),
+    };
+    if got != expected {
+        out.push(v(
+            prop,
+            "tree-differs",
+            format!("expected {expected}   got {got}"),
+        ));
+    }
+    let got_actions: Vec<String> = obs
+        .log
+        .iter()
+        .filter(|e| e.kind == EvKind::Action)
+        .map(|e| e.name.to_string())
+        .collect();
+    if got_actions != actions {
+        out.push(v(
+            prop,
+            "actions-differ",
+            format!("expected actions {actions:?}, got {got_actions:?}"),
+        ));
+    }
+    out
+}
+
+/// C08 (iii)/(iv): callback accounting and no action inside an attempt that can be undone.
+pub fn c08_callbacks(obs: &Obs, rule_names: &[&str]) -> Vec<Viol> {
+    let mut out = vec![];
+    let mut balance: std::collections::BTreeMap<&str, i64> = Default::default();
+    for e in &obs.log {
+        match e.kind {
+            EvKind::Create => *balance.entry(e.name).or_insert(0) += 1,
+            EvKind::Delete => *balance.entry(e.name).or_insert(0) -= 1,
+            EvKind::Action => {
+                if e.in_choice {
+                    out.push(v(
+                        "C08",
+                        "action-in-attempt",
+                        format!("action_{} ran while an ordered-choice attempt could still be undone", e.name),
+                    ));
+                }
+            }
+            _ => {}
+        }
+    }
+    let mut present: std::collections::BTreeMap<&str, i64> = Default::default();
+    for n in &obs.nodes {
+        if let crate::ONode::Rule(k, _) = n {
+            *present.entry(rule_names[*k as usize]).or_insert(0) += 1;
+        }
+    }
+    let kinds: std::collections::BTreeSet<&str> = balance.keys().chain(present.keys()).copied().collect();
+    for k in kinds {
+        let b = balance.get(k).copied().unwrap_or(0);
+        let p = present.get(k).copied().unwrap_or(0);
+        let ok = if k == "error" { b <= p } else { b == p };
+        if !ok {
+            out.push(v(
+                "C08",
+                "callback-accounting",
+                format!("node kind `{k}`: created - deleted = {b}, present in the final tree = {p}"),
+            ));
+            break;
+        }
+    }
+    out
+}
